@@ -23,6 +23,7 @@ import M4riProofs.GenTieClose3
 import M4riProofs.GenTieMul
 import M4riProofs.GenTieVa
 import M4riProofs.GenTieClose5
+import M4riProofs.GenTieNaive
 namespace M4ri.Props.C01
 open M4ri M4ri.BMat
 
@@ -183,3 +184,12 @@ end M4ri.Props.C01
 #check @M4ri.GenTieClose5.cAddmulG_correct
 #check @M4ri.GenTieClose5.cSqrG_correct
 #check @M4ri.GenTieClose5.cAddsqrG_correct
+
+/-! ### `_mzd_mul_naive` ON THE C TEXT (GenTieNaive.lean): the complete generated function — clearing loop, the local array `parity[64]` (a 1-dimensional
+    memory), blocked row loop (block size numeral proved = 2048) and remainder row loop (together: every row exactly once, `blocked_remainder_eq`),
+    downward and upward accumulation loops, the generated 64x64 parity network, masked last word — equals the model `mulNaiveTW` as memories for EVERY
+    value of the left-over `parity` entries (they are hidden by the mask), hence every stored entry is (A*B)[i,j] resp. C[i,j] + (A*B)[i,j] -/
+#check @M4ri.GenTieNaive.mzdMulNaive_eq
+#check @M4ri.GenTieNaive.mzdMulNaive_spec
+#check @M4ri.GenTieNaive.mzdMulNaive_eq_putB
+#check @M4ri.GenTieNaive.blocked_remainder_eq
